@@ -2,15 +2,21 @@
 import kernel_common as K
 
 MANIFEST = {
-    "text": "Kernel model MV.Kernel.Model (message-step semantics of actor_context.go with user code as data) replayed in lockstep against "
-            "the real vivid.ActorSystem on every run (150 random scripted scenarios quick, 3000 thorough; every step's observations must be "
-            "equal). Proved for all role tables and states: an actor object whose status is Terminated handles nothing any more "
-            "(C03_terminated_handles_nothing). The clause 'first handled message is OnLaunch' is proved FALSE of the faithful model "
-            "(C03_first_is_launch_refuted, witness by vm_compute; open finding C03-restart-behind-pending); the remaining grammar clauses are "
-            "checked per run by the lockstep correspondence and the lifecycle monitors, not yet by theorem.",
-    "note": "Partial: see text. Trusted: Coq kernel+vm_compute, hand-written kernel model (tied by lockstep replay, sampled), gating scheduler "
-            "and hooks, script interpreters on both sides; timers not modelled (immediate supervision strategies only).",
-    "technique": "Coq proof on a message-step kernel model + lockstep differential replay of the real actor system inside Coq",
+    "text": "Kernel model MV.Kernel.Model (actor_context.go lifecycle: OnLaunch/OnRestarting/OnTerminate/OnTerminated/OnRestarted, restart "
+            "completed in one step by start_instance, termination, terminated actors) replayed in lockstep against the real actor system. "
+            "Proved for every role table and every run from the freshly started system: C03_launch_first (Kernel/Launch.v, trace-indexed "
+            "invariant: every object is a system actor, has OnLaunch at the head of its mailbox, has handled OnLaunch with its current "
+            "instance, or is terminated) — an incarnation handles nothing but OnRestarted before its OnLaunch; C03_terminated_is_final, "
+            "C03_terminated_handles_nothing, C03_nothing_handled_after_terminated — nothing at all after its own OnTerminated, a restart "
+            "cannot revive it. With C04_own_step_ending_suspended_is_waiting and C04_no_user_message_until_decision_run: no user message "
+            "between OnRestarting and the fresh instance. The order OnRestarting, OnTerminate, OnTerminated (old instance), OnRestarted, "
+            "OnLaunch (new instance) inside the restart is how try_restarted/start_instance are built and is decided per run by step "
+            "equality with the model and the C03 monitors.",
+    "note": "Partial: 'OnTerminate before own OnTerminated' and the exact restart sequence are per-run (correspondence + monitors), not "
+            "theorems. Four defects were repaired (restart only from Alive, terminated actor handled queued messages, restart behind "
+            "pending messages, lifecycle-handler panics). Trusted: Coq kernel+vm_compute, hand-written kernel model tied by lockstep replay.",
+    "technique": "Coq proof (trace-indexed invariant over every run) on a message-step kernel model + lockstep differential replay of the "
+                 "real actor system inside Coq",
 }
 
 
